@@ -178,9 +178,20 @@ def gen_poly(rng):
     return dict(kind="poly", edge=rng.choice(["spline", "polyLine"]), v1=pts[0], v2=pts[-1], points=pts[1:-1])
 
 
-def gen_chord(rng):
-    """other edge kinds, only for the chord bound"""
+def gen_chord(rng, stratum=None):
+    """other edge kinds, only for the chord bound.
+    stratum "seam": OnCurve edge on a full CircleCurve (bounds 0..2 pi) with one vertex within half a coarse step (2 pi / 14) of
+    the seam on either side and the other vertex a short arc away on the other side of the seam"""
     np = _np()
+    if stratum == "seam":
+        c, R = rand_centre_radius(rng)
+        u, v, a = rand_frame(rng)
+        near, far = rng.uniform(0.02, 0.2), rng.uniform(0.3, 1.0)
+        t1, t2 = (near, TWO_PI - far) if rng.random() < 0.5 else (TWO_PI - near, far)
+        if rng.random() < 0.5:
+            t1, t2 = t2, t1
+        return dict(kind="chord", edge="curve_circle", stratum="seam", origin=lst(c), rim=lst(circ(c, R, u, v, 0.0)), normal=lst(a),
+                    v1=lst(circ(c, R, u, v, t1)), v2=lst(circ(c, R, u, v, t2)))
     k = rng.choice(["line", "project", "arc_collinear", "curve_discrete", "curve_line", "curve_circle", "curve_linear"])
     scale = 10 ** rng.uniform(-1, 1.5)
     v1 = [rng.uniform(-1, 1) * scale for _ in range(3)]
@@ -832,6 +843,8 @@ class C08(Prop):
             cases.append(gen_poly(rng))
         for _ in range(max(40, n // 4)):
             cases.append(gen_chord(rng))
+        for _ in range(max(10, n // 20)):
+            cases.append(gen_chord(rng, "seam"))
         return cases
 
     def correspond(self, ctx):
@@ -901,7 +914,7 @@ class C08(Prop):
             if bad:
                 fails.append(dict(kind=m["case"]["kind"], case=m["case"], observed=m["impl"], sig=bad[0], why=bad[1]))
         rng = ctx.rng
-        gens = [gen_theta, gen_origin, gen_arc3, gen_poly, gen_chord]
+        gens = [gen_theta, gen_origin, gen_arc3, gen_poly, gen_chord, lambda r: gen_chord(r, "seam")]
         seen = {f["sig"] for f in fails}
         for i in range(ctx.n(3000, 20000)):
             case = gens[i % len(gens)](rng)
